@@ -19,13 +19,17 @@ What is proved for ALL inputs of the model
     equivalence relation, and its instance for `is_isomorphic` (`compareBags_mrs_renamed_copy`).
   * faithfulness of the encoding: on the input space `InSpace` (Spec.lean, all clauses decidable and
     evaluated by the driver on every generated case) `is_isomorphic` answers `True` exactly on
-    isomorphic MRSs — `MRSIso`, defined without any graph (`isIsomorphic_iff_mrsIso`); isomorphic
+    isomorphic MRSs — `MRSIso`, defined without any graph (`isIsomorphic_iff_mrsIso`; the property clause
+    is about the multiset of (upper-cased name, lower-cased value) pairs of INTRINSIC — for quantifiers:
+    bound — variables only, as in the code); isomorphic
     MRSs pass the size pre-checks (`mrsIso_passes_size_checks`); renaming / reordering invariance
     (`isIsomorphic_renamed`, `_reordered`).
 What is NOT proved: nothing of the property's clauses for the model remains open; what remains
 trusted is the model itself (tied to the code by the correspondence run and the pins) and the
 hypotheses: `InSpace` (node-name hygiene, no parallel constraints, the three edge-label alphabets
-disjoint, no blank in a role, no `(`/`{` in a predicate, no `)` in a constant, clean edge labels).
+disjoint, no blank in a role, no `(`/`{` in a predicate, no `)` in a constant, property names without
+lower-case letter / `=` / `|` and values without `|`, clean edge labels).  The graph-level statements
+(`isIsomorphic_iff`, `isIsomorphic_complete`) are for pairs passing the four size pre-checks.
 -/
 import Verif.C06.Complete
 import Verif.C06.Encoding
@@ -357,7 +361,9 @@ constraints and (when requested) morphosemantic properties" — faithfulness of 
 (`InSpace`, Spec.lean: `NamesOK`, `NoParallel`, role names without blank or lower-case letter and
 distinct per predication, handle-constraint relations among qeq/lheq/outscopes, individual-constraint
 relations lower-case and different from those and from `eq-scope`, no `(`/`{` in a normalised
-predicate, no `)` in a constant, clean edge labels), the two structures are isomorphic MRSs. -/
+predicate, no `)` in a constant, clean edge labels; property names without lower-case letter, `=` or `|`, values without `|`, names distinct), the
+two structures are isomorphic MRSs.  Properties: those of intrinsic (for quantifiers: bound) variables only —
+properties of variables that occur only as arguments are compared neither by the code nor by `MRSIso`. -/
 theorem isIsomorphic_imp_mrsIso (properties : Bool) (m1 m2 : MRS)
     (h1 : InSpace properties m1) (h2 : InSpace properties m2)
     (h : isIsomorphic properties m1 m2 = .ok true) : MRSIso properties m1 m2 := by
@@ -488,6 +494,23 @@ theorem compareBags_mrs_renamed_copy (properties : Bool)
   · intro t ht
     exact (hb t (f t)).2 (hcopy t ht)
 
+/-- **The property's bag sentence**: a bag compared with a renamed, shuffled copy of itself is entirely
+shared.  Every member `t` of `test` has a copy `f t` obtained by an injective renaming `σ` of its
+variables followed by a reordering of predications and constraints; `gold` is a permutation of these
+copies.  Hypotheses per member: those of `isIsomorphic_renamed_reordered`. -/
+theorem compareBags_mrs_renamed_reordered (properties : Bool)
+    (test gold : List {m : MRS // Encodable properties m})
+    (f : {m : MRS // Encodable properties m} → {m : MRS // Encodable properties m})
+    (hcopy : ∀ t ∈ test, ∃ σ : Var → Var, NamesOK t.1 ∧ NamesOK (renMRS σ t.1)
+      ∧ (∀ x ∈ rawVars t.1, ∀ y ∈ rawVars t.1, σ x = σ y → x = y)
+      ∧ Reordered (renMRS σ t.1) (f t).1 ∧ NoParallel (renMRS σ t.1))
+    (hshuffle : (test.map f).Perm gold) :
+    compareBags (isoB properties) test gold = (0, test.length, 0) := by
+  apply compareBags_mrs_renamed_copy properties test gold f _ hshuffle
+  intro t ht
+  obtain ⟨σ, h, h', hσ, hr, hnp⟩ := hcopy t ht
+  exact isIsomorphic_renamed_reordered properties σ t.1 (f t).1 h h' hσ hr hnp
+
 /-! ## non-vacuity and regression instances (tests, labelled as such) -/
 
 section Examples
@@ -572,7 +595,7 @@ def mDog : MRS :=
     variables := [(vX 3, [("PERS", "3"), ("NUM", "sg")]), (vE 2, [("TENSE", "pres")])] }
 
 /-- the same reading with other variable names, predications and constraints in another order,
-another spelling of one predicate and of the property names -/
+another spelling of one predicate, other property order and value case -/
 def mDogRenamed : MRS :=
   { top := some (vH 10)
     index := some (vE 9)
@@ -580,11 +603,11 @@ def mDogRenamed : MRS :=
              { predicate := "\"_DOG_n_1_rel\"", label := vH 3, args := [("ARG0", vX 8)] },
              { predicate := "_the_q", label := vH 1, args := [("ARG0", vX 8), ("RSTR", vH 4), ("BODY", vH 5)] }]
     hcons := [⟨vH 4, "qeq", vH 3⟩, ⟨vH 10, "qeq", vH 2⟩]
-    variables := [(vE 9, [("tense", "PRES")]), (vX 8, [("num", "SG"), ("pers", "3")])] }
+    variables := [(vE 9, [("TENSE", "PRES")]), (vX 8, [("NUM", "SG"), ("PERS", "3")])] }
 
 /-- one property value changed -/
 def mDogPlural : MRS :=
-  { mDogRenamed with variables := [(vE 9, [("tense", "PRES")]), (vX 8, [("num", "PL"), ("pers", "3")])] }
+  { mDogRenamed with variables := [(vE 9, [("TENSE", "PRES")]), (vX 8, [("NUM", "PL"), ("PERS", "3")])] }
 
 example : inSpaceb true mDog = true ∧ inSpaceb true mDogRenamed = true ∧ inSpaceb true mDogPlural = true := by
   decide
